@@ -40,7 +40,7 @@ TheCfg == [mind |-> 0, maxd |-> MaxDepth, cfgMaxd |-> MaxDepth, extra |-> 0,
 Ordered(i, j) == IF i < j THEN <<i, j>> ELSE <<j, i>>
 
 RNext ==
-    \/ /\ TrajInit(TheCfg, TheOrbit.w[0])
+    \/ /\ TrajInit(TheCfg, TheOrbit.w[0], 0)
        /\ UNCHANGED <<oid, prob, script>>
     \/ \E d \in {1, -1} :
           /\ ChooseDir(d)
@@ -48,7 +48,7 @@ RNext ==
           /\ script' = Append(script, d)
           /\ UNCHANGED oid
     \/ /\ phase = "ext" /\ Top.other = None
-       /\ Leap("ok", TheOrbit.w[LeapStart + dir])
+       /\ Leap("ok", TheOrbit.w[LeapStart + dir], LeapStart + dir)
        /\ UNCHANGED <<oid, prob, script>>
     \/ /\ ReadyToJoin /\ ~ChecksDone
        /\ TurnCheck(ExpectedPair[1], ExpectedPair[2], ExpectedPair[3],
